@@ -548,3 +548,136 @@ pub fn c18_big() -> Space {
         ctx.sample(|| json!({"order": n, "pattern": pat}));
     })
 }
+
+// ------------------------------------------------------------------ C07 / C08 at large orders
+
+fn potentials(abs: &Abs, pat: usize) -> Abs {
+    // non-negative base weights, then w' = w + p(u) - p(v): circuits keep their (non-negative) weight
+    let mut a = weights_on(abs, 1 + pat % 2);
+    for (&(u, v), w) in a.w.iter_mut() {
+        *w += (u as i128 * 5 % 11) - (v as i128 * 5 % 11);
+    }
+    a
+}
+
+pub fn c07_c08_big(which: &'static str, thorough: bool) -> Space {
+    let ords: Vec<usize> = if thorough { vec![12, 17, 32, 33, 34, 64, 65, 66] } else { vec![12, 33, 34, 65] };
+    let mut cs = Vec::new();
+    for &n in &ords {
+        for f in 0..big_shapes(n).len() {
+            cs.push((n, f));
+        }
+    }
+    let cs = Arc::new(cs);
+    Space::new(if which == "bfm" { "c07.big" } else { "c08.big" }, vec![u64::from(thorough)], cs.len() as u64 * 2, format!("{} on structured digraphs at orders {ords:?} with potential-reweighted (negative) arcs, two weight patterns; no negative circuit by construction", if which == "bfm" { "BellmanFordMoore from the sources {0, 1, n/2, 31..33, 63..65, n-2, n-1}" } else { "FloydWarshall, all pairs, and its DistanceMatrix metrics" }), move |idx, ctx| {
+        let (n, f) = cs[(idx / 2) as usize];
+        let pat = (idx % 2) as usize;
+        let (name, shape) = big_shapes(n).swap_remove(f);
+        let abs = potentials(&shape, pat);
+        let d = mk::<WI>(&abs);
+        let det = |s: usize| json!({"order": n, "shape": name, "weight_pattern": pat, "source": s});
+        if which == "bfm" {
+            for s in interesting(n) {
+                ctx.exec();
+                let dist = abs.dist(&BTreeSet::from([s]));
+                let want: Vec<isize> = (0..n).map(|v| dist.get(&v).map_or(isize::MAX, |&x| x as isize)).collect();
+                match guarded(|| BellmanFordMoore::new(&d, s).distances().map(<[isize]>::to_vec)) {
+                    Err(e) => ctx.fail(format!("BellmanFordMoore panicked: {e}"), det(s)),
+                    Ok(None) => ctx.fail("BellmanFordMoore::distances() returned None on a digraph without negative circuit", det(s)),
+                    Ok(Some(g)) => {
+                        if g != want {
+                            ctx.fail(format!("BellmanFordMoore::distances() differs from the minimum walk weights at vertices {:?}", (0..n).filter(|&v| g[v] != want[v]).take(5).collect::<Vec<_>>()), det(s));
+                        }
+                    }
+                }
+            }
+        } else {
+            ctx.exec();
+            let r = guarded(|| {
+                let mut fw = FloydWarshall::new(&d);
+                let m = fw.distances();
+                (m.dist.clone(), m.order, m.eccentricities().copied().collect::<Vec<isize>>(), *m.diameter(), m.center(), m.periphery().collect::<Vec<usize>>(), m.is_connected())
+            });
+            match r {
+                Err(e) => ctx.fail(format!("FloydWarshall panicked: {e}"), det(0)),
+                Ok((flat, order, ecc, diam, center, periphery, connected)) => {
+                    if order != n || flat.len() != n * n {
+                        ctx.fail("FloydWarshall matrix has the wrong shape", det(0));
+                        return;
+                    }
+                    for s in 0..n {
+                        let dist = abs.dist(&BTreeSet::from([s]));
+                        for v in 0..n {
+                            let w = dist.get(&v).map_or(isize::MAX, |&x| x as isize);
+                            if flat[s * n + v] != w {
+                                ctx.fail(format!("FloydWarshall::distances()[({s}, {v})] = {}, minimum walk weight is {w}", flat[s * n + v]), det(s));
+                                return;
+                            }
+                        }
+                    }
+                    let wecc: Vec<isize> = (0..n).map(|u| *flat[u * n..(u + 1) * n].iter().max().unwrap()).collect();
+                    let wd = *wecc.iter().max().unwrap();
+                    let wm = *wecc.iter().min().unwrap();
+                    let want = (wecc.clone(), wd, (0..n).filter(|&u| wecc[u] == wm).collect::<Vec<_>>(), (0..n).filter(|&u| wecc[u] == wd).collect::<Vec<_>>(), wecc.iter().all(|&e| e != isize::MAX));
+                    if (ecc, diam, center, periphery, connected) != want {
+                        ctx.fail("DistanceMatrix metrics on the FloydWarshall output differ from their definitions", det(0));
+                    }
+                }
+            }
+        }
+        ctx.nontrivial();
+        ctx.sample(|| json!({"order": n, "shape": name, "weight_pattern": pat}));
+    })
+}
+
+// ------------------------------------------------------------------ C12 / C15 at large orders
+
+pub fn c12_big(thorough: bool) -> Space {
+    let cs = cases(thorough);
+    Space::new("c12.big", vec![u64::from(thorough)], cs.len() as u64, format!("the eight unary predicates on structured digraphs at orders {:?} in five representations, and the three binary relations between each shape, its converse, its symmetric closure and another shape of the same order", big_orders(thorough)), move |idx, ctx| {
+        let (n, f) = cs[idx as usize];
+        let shapes = big_shapes(n);
+        let (name, abs) = &shapes[f];
+        let other = &shapes[(f + 3) % shapes.len()].1;
+        crate::spacesx::par(3);
+        fn go<R: Rep>(abs: &Abs, other: &Abs, name: &str, ctx: &mut Ctx) {
+            let d: R = mk::<R>(abs);
+            crate::props::ops::unary_predicates(abs, &d, ctx, &|| json!({"shape": name}));
+            let sym = abs.union(&abs.converse());
+            for (label, o) in [("its converse", abs.converse()), ("its symmetric closure", sym), ("another shape", other.clone()), ("itself", abs.clone())] {
+                let od: R = mk::<R>(&o);
+                let det = || json!({"rep": R::NAME, "order": abs.n(), "shape": name, "other": label});
+                let want = (abs.is_subdigraph_of(&o), o.is_subdigraph_of(abs), abs.is_subdigraph_of(&o) && abs.v == o.v);
+                ctx.execs_n(3);
+                match guarded(|| (d.is_subdigraph(&od), d.is_superdigraph(&od), d.is_spanning_subdigraph(&od))) {
+                    Ok(g) if g == want => {}
+                    Ok(g) => ctx.fail(format!("{}: (is_subdigraph, is_superdigraph, is_spanning_subdigraph) against {label} = {g:?}, definitions give {want:?}", R::NAME), det()),
+                    Err(e) => ctx.fail(format!("{}: a binary relation panicked: {e}", R::NAME), det()),
+                }
+            }
+        }
+        go::<AL>(abs, other, name, ctx);
+        go::<AM>(abs, other, name, ctx);
+        go::<AX>(abs, other, name, ctx);
+        go::<EL>(abs, other, name, ctx);
+        go::<WU>(abs, other, name, ctx);
+        ctx.nontrivial();
+        ctx.sample(|| json!({"order": n, "shape": name}));
+    })
+    .procs()
+}
+
+pub fn c15_big(thorough: bool) -> Space {
+    let ords: Vec<usize> = if thorough { vec![9, 12, 16, 17, 23, 31, 32, 33, 34, 40, 64, 65, 66, 100] } else { vec![9, 12, 17, 33, 40, 65] };
+    let seeds: u64 = if thorough { 8 } else { 3 };
+    let n_ords = ords.len() as u64;
+    Space::new("c15.big", vec![u64::from(thorough)], n_ords * seeds, format!("the three seeded generators at orders {ords:?} × {seeds} seeds in four representations (worker threads 3): validity, p = 0 / p = 1 extremes, exact repetition"), move |idx, ctx| {
+        let n = ords[(idx % n_ords) as usize];
+        let seed = [0u64, 1, u64::MAX, 7, 1 << 32, 12345, 99, 3][(idx / n_ords) as usize];
+        crate::spacesx::par(3);
+        crate::props::gens::rand_checks_pub(n, seed, ctx);
+        ctx.nontrivial();
+        ctx.sample(|| json!({"order": n, "seed": seed}));
+    })
+    .procs()
+}
